@@ -167,9 +167,74 @@ Fixpoint pc_pct (s : list N) : list N :=
     else c :: pc_pct t
   end.
 
-(* form_urlencoded::decode: '+' means space, then percent-decoding *)
+(* String::from_utf8_lossy (core::str::lossy::Utf8Chunks): valid UTF-8 is kept;
+   every maximal invalid piece - a byte that cannot start a character (80..C1,
+   F5..FF), or a lead byte with the continuation bytes that still fit it, cut
+   where the first byte that does not fit stands (that byte starts the next
+   piece) - becomes ONE U+FFFD (EF BF BD). Second bytes are restricted as in
+   the Unicode table (no overlong forms, no surrogates, nothing above 10FFFF). *)
+Definition pc_cont (b : N) : bool := (128 <=? b) && (b <=? 191).
+Definition pc_repl : list N := [239; 191; 189].
+Definition pc_second3 (b c : N) : bool :=
+  if b =? 224 then (160 <=? c) && (c <=? 191)
+  else if b =? 237 then (128 <=? c) && (c <=? 159)
+  else pc_cont c.
+Definition pc_second4 (b c : N) : bool :=
+  if b =? 240 then (144 <=? c) && (c <=? 191)
+  else if b =? 244 then (128 <=? c) && (c <=? 143)
+  else pc_cont c.
+
+Fixpoint pc_utf8_lossy (s : list N) : list N :=
+  match s with
+  | [] => []
+  | b :: r =>
+    if b <? 128 then b :: pc_utf8_lossy r
+    else if (194 <=? b) && (b <=? 223) then
+      match r with
+      | c1 :: r1 => if pc_cont c1 then b :: c1 :: pc_utf8_lossy r1 else pc_repl ++ pc_utf8_lossy r
+      | [] => pc_repl
+      end
+    else if (224 <=? b) && (b <=? 239) then
+      match r with
+      | c1 :: r1 =>
+        if pc_second3 b c1 then
+          match r1 with
+          | c2 :: r2 => if pc_cont c2 then b :: c1 :: c2 :: pc_utf8_lossy r2 else pc_repl ++ pc_utf8_lossy r1
+          | [] => pc_repl
+          end
+        else pc_repl ++ pc_utf8_lossy r
+      | [] => pc_repl
+      end
+    else if (240 <=? b) && (b <=? 244) then
+      match r with
+      | c1 :: r1 =>
+        if pc_second4 b c1 then
+          match r1 with
+          | c2 :: r2 =>
+            if pc_cont c2 then
+              match r2 with
+              | c3 :: r3 => if pc_cont c3 then b :: c1 :: c2 :: c3 :: pc_utf8_lossy r3 else pc_repl ++ pc_utf8_lossy r2
+              | [] => pc_repl
+              end
+            else pc_repl ++ pc_utf8_lossy r1
+          | [] => pc_repl
+          end
+        else pc_repl ++ pc_utf8_lossy r
+      | [] => pc_repl
+      end
+    else pc_repl ++ pc_utf8_lossy r
+  end.
+
+(* a byte string that is UTF-8: the lossy conversion leaves it alone *)
+Definition pc_is_utf8 (s : list N) : Prop := pc_utf8_lossy s = s.
+
+(* form_urlencoded::decode: '+' means space, then percent-decoding, then the
+   LOSSY conversion to a String: what reaches the handler as a parameter name
+   or value is always UTF-8. Names in the tree are any octets (no '/', no NUL):
+   one that is not UTF-8 cannot be asked for by name - the request carries
+   U+FFFD where the odd bytes were - but can be reached through a link. *)
 Definition pc_form_decode (s : list N) : list N :=
-  pc_pct (map (fun c => if c =? 43 then 32 else c) s).
+  pc_utf8_lossy (pc_pct (map (fun c => if c =? 43 then 32 else c) s)).
 
 (* cut at the first byte satisfying [f]: (before, found?, after) *)
 Fixpoint pc_cut (f : N -> bool) (s : list N) : list N * bool * list N :=
@@ -271,6 +336,12 @@ Definition pc_handle (root : pc_node) (cwd : pc_path) (api : list N) (upd : opti
    is itself canonical: a text with a symbolic link, "." or ".." in it names a location
    that can move between the endpoint's check and the unit's use. *)
 Definition pc_entry_text (full : pc_path) : list N := pc_render full.
+
+(* ... and it is the PathBuf itself, octets as the file system has them, that is
+   sent. What the endpoint SHOWS of it (debug line, "queued .. for processing",
+   "processed ..: ..") is `full_path.to_string_lossy()`: total, U+FFFD where the
+   octets are not UTF-8. *)
+Definition pc_shown (full : pc_path) : list N := pc_utf8_lossy (pc_render full).
 
 (* the text equals its own canonicalisation (byte for byte) *)
 Definition pc_text_canonical (root : pc_node) (cwd : pc_path) (s : list N) : bool :=
